@@ -184,31 +184,7 @@ class Section(Entity):
         :returns: The copied section
         :rtype: nixio.Section
         """
-        if not isinstance(obj, Section):
-            raise TypeError("Object to be copied is not a Section")
-
-        if obj._sec_parent:
-            src = "{}/{}".format("sections", obj.name)
-        else:
-            src = "{}/{}".format("metadata", obj.name)
-
-        clsname = "sections"
-        if not name:
-            name = str(obj.name)
-        sec = self._h5group.open_group("sections", True)
-        if name in sec:
-            raise NameError("Name already exist. Possible solution is to "
-                            "provide a new name when copying destination "
-                            "is the same as the source parent")
-        sec = obj._parent._h5group.copy(source=src, dest=self._h5group,
-                                        name=name, cls=clsname,
-                                        keep_id=keep_id)
-
-        if not children:
-            for prop in obj.props:
-                self.sections[obj.name].create_property(copy_from=prop, keep_copy_id=keep_id)
-
-        return self.sections[sec.attrs["entity_id"]]
+        return copy_section_to(obj, self, "sections", children, keep_id, name)
 
     @property
     def reference(self):
@@ -523,3 +499,32 @@ class Section(Entity):
         if "entity_id" in grp.attrs:
             id_ = util.create_id()
             grp.attrs.modify("entity_id", np.bytes_(id_))
+
+
+def copy_section_to(obj, dest, clsname, children, keep_id, name):
+    """
+    Copy the Section ``obj`` into the section container ``clsname``
+    ("metadata" for a File, "sections" for a Section) of ``dest``.
+
+    :returns: The copied section
+    :rtype: nixio.Section
+    """
+    if not isinstance(obj, Section):
+        raise TypeError("Object to be copied is not a Section")
+    if not name:
+        name = str(obj.name)
+    if name in dest.sections:
+        raise NameError("Name already exist. Possible solution is to "
+                        "provide a new name when copying destination "
+                        "is the same as the source parent")
+    # copy from the group that actually holds the section, wherever it lives
+    # (file root, another section, or a metadata link)
+    srcparent = obj._h5group.parent
+    srcparent.copy(source=obj._h5group.name, dest=dest._h5group, name=name,
+                   cls=clsname, shallow=not children, keep_id=keep_id)
+    newsec = dest.sections[name]
+    if not children:
+        # a shallow copy has no properties yet
+        for prop in obj.props:
+            newsec.create_property(copy_from=prop, keep_copy_id=keep_id)
+    return newsec
